@@ -266,6 +266,116 @@ def h17b_shards(tier):
     return out
 
 
+# ---------------------------------------------------------------- H17c linearizability (coroutine model, preemption bounded)
+
+from vf import coro  # noqa: E402
+from harness.sched import run_preemptive  # noqa: E402
+
+dns.resolver.threading = coro.ThreadingShim  # E10 (a cooperative Lock also serves the sequential harnesses)
+_CORO = {}
+
+
+def setup_coro():
+    if not _CORO:
+        coro.install([(dns.resolver.LRUCache, "get"), (dns.resolver.LRUCache, "put"), (dns.resolver.LRUCache, "flush"),
+                      (dns.resolver.Cache, "get"), (dns.resolver.Cache, "put"), (dns.resolver.Cache, "flush")], ["lock"], True,
+                     plain_receivers=["data"])
+        _CORO["done"] = True
+
+
+def cache_thread(cache, ops, results, vals):
+    for o, k in ops:
+        if o == GET:
+            r = yield from cache.get_gen(KEYS[k])
+            results.append(("get", k, None if r is None else r.vid))
+        elif o == PUT:
+            yield from cache.put_gen(KEYS[k], vals.pop(0))
+            results.append(("put", k, None))
+        else:
+            yield from cache.flush_gen(KEYS[k])
+            results.append(("flush", k, None))
+
+
+def sequential(lru, order, opsA, opsB):
+    """Results and final state of one sequential order (order = tuple of 'A'/'B')."""
+    model = Model(lru, 2)
+    ia = ib = 0
+    ra, rb = [], []
+    va = [Val(10, 10**6), Val(11, 10**6)]
+    vb = [Val(20, 10**6), Val(21, 10**6)]
+    for who in order:
+        if who == "A":
+            o, k = opsA[ia]
+            ia += 1
+            res, vals = ra, va
+        else:
+            o, k = opsB[ib]
+            ib += 1
+            res, vals = rb, vb
+        if o == GET:
+            r = model.get(k, 100)
+            res.append(("get", k, None if r is None else r.vid))
+        elif o == PUT:
+            model.put(k, vals.pop(0))
+            res.append(("put", k, None))
+        else:
+            model.flush(k)
+            res.append(("flush", k, None))
+    state = [(e[0], e[1].vid) for e in model.rec]
+    if not lru:
+        state = sorted(state)
+    return ra, rb, state, model.hits, model.misses
+
+
+ORDERS = [("A", "A", "B", "B"), ("A", "B", "A", "B"), ("A", "B", "B", "A"), ("B", "A", "A", "B"), ("B", "A", "B", "A"), ("B", "B", "A", "A")]
+
+
+def h17c(oa1: int, ka1: int, oa2: int, ka2: int, ob1: int, kb1: int, ob2: int, kb2: int, p1: int) -> bool:
+    """Two threads x two operations on one cache, one preemption at any statement: results, counters and final state equal those of some sequential order."""
+    lru = S("lru")
+    Clock.now = 100
+    cache = dns.resolver.LRUCache(2) if lru else dns.resolver.Cache(cleaning_interval=10**6)
+    opsA = [(oa1, ka1), (oa2, ka2)]
+    opsB = [(ob1, kb1), (ob2, kb2)]
+    ra, rb = [], []
+    gens = [cache_thread(cache, opsA, ra, [Val(10, 10**6), Val(11, 10**6)]), cache_thread(cache, opsB, rb, [Val(20, 10**6), Val(21, 10**6)])]
+    run = run_preemptive(gens, p1, 1, 10**6, 0)
+    if run.deadlock or run.overflow:
+        return False
+    hit("ran")
+    if lru:
+        nodes = ring(cache)
+        if nodes is None or len(nodes) != len(cache.data):
+            return False
+        state = [(KEYS.index(n.key), n.value.vid) for n in nodes]
+    else:
+        state = sorted([(KEYS.index(k), v.vid) for k, v in cache.data.items()])
+    got = (ra, rb, state, cache.statistics.hits, cache.statistics.misses)
+    for order in ORDERS:
+        if sequential(lru, order, opsA, opsB) == got:
+            return True
+    return False
+
+
+def h17c_pre(oa1, ka1, oa2, ka2, ob1, kb1, ob2, kb2, p1):
+    ops = [(oa1, ka1), (oa2, ka2), (ob1, kb1), (ob2, kb2)]
+    if not all([o in (GET, PUT, FLUSH) and 0 <= k <= 1 for o, k in ops]):
+        return False
+    lo, hi = S("p1")
+    return lo <= p1 < hi and oa1 == S("oa1") and ob1 == S("ob1")
+
+
+def h17c_shards(tier):
+    out = []
+    for lru in (True, False):
+        for oa1 in (GET, PUT, FLUSH):
+            for ob1 in (GET, PUT, FLUSH):
+                rngs = [(0, 40)] if tier == "quick" else [(0, 20), (20, 40), (40, 60)]
+                for r in rngs:
+                    out.append({"lru": lru, "oa1": oa1, "ob1": ob1, "p1": r, "_timeout": 1500, "_path_timeout": 120})
+    return out
+
+
 HARNESSES = [
     Harness("H17a", h17a, h17a_pre, h17a_shards, kind="finite selection of operations/keys with universal TTLs and clock advances",
             encodes=["dns.resolver.Cache.get", "dns.resolver.Cache.put", "dns.resolver.Cache.flush", "dns.resolver.Cache._maybe_clean",
@@ -277,4 +387,9 @@ HARNESSES = [
             encodes=["dns.resolver.LRUCache.get", "dns.resolver.LRUCache.put", "dns.resolver.LRUCache.flush", "dns.resolver.LRUCache.set_max_size"],
             bound="LRU states of 3 entries in 2 (6) recency orders with symbolic expirations 0..6, max_size 3 (2,3,4), then two symbolic operations",
             stubs=["E7"], outside="> 3 keys"),
+    Harness("H17c", h17c, h17c_pre, h17c_shards, kind="finite: preemption-bounded schedules of the statement-level coroutine model",
+            encodes=["dns.resolver.LRUCache.get", "dns.resolver.LRUCache.put", "dns.resolver.LRUCache.flush", "dns.resolver.Cache.get",
+                     "dns.resolver.Cache.put", "dns.resolver.Cache.flush"],
+            bound="2 threads x 2 operations (get / put / flush over 2 keys, first operation of each thread per shard), a preemption point after every statement of the six methods (regenerated from source), 1 preemption at any of the first 40 (thorough 60) steps; observed results, counters and final state must equal one of the 6 sequential orders",
+            stubs=["E10", "E7"], outside="> 2 threads, > 1 preemption, set_max_size (takes no lock upstream), real threading.Lock", setup=setup_coro),
 ]
